@@ -16,6 +16,9 @@ RULE = ('alphabet A={a,A,b,1,-,_,e-acute,E-acute}; X in A^<=n as a literal '
         'not/and contexts through Enforcer.enforce and compared with the '
         'reference membership model; plus every sequence of <=3 in-place edits (append/remove/clear) of ONE roles list object with role checks decided after each edit. case = (X form, target, role list); '
         'non-trivial = non-empty X and non-empty role list.')
+RULE += (
+         ' Plus `debuglog`: the role table for 1-letter and two 2-letter'
+         ' names again with every oslo_policy logger at DEBUG.')
 ASSUMPTIONS = ['alphabet restricted to characters with one-to-one case maps '
                '(as the property states)']
 
@@ -60,6 +63,7 @@ def plan(tier, seed):
         jobs.append({'space': 'placeholder2', 'lo': lo, 'hi': hi,
                      'tier': tier, 'weight': (hi - lo) * 6})
     jobs.append({'space': 'mutate', 'tier': tier, 'weight': 50})
+    jobs.append({'space': 'debuglog', 'tier': tier, 'weight': 200})
     if b.get('lists3'):
         for lo, hi in core.chunks(len(words(2)), 32):
             jobs.append({'space': 'lists3', 'lo': lo, 'hi': hi, 'tier': tier,
@@ -149,6 +153,29 @@ def run(job, seed):
         acc.sample(space, {'x': form, 'target': target, 'roles': rl})
     elif space == 'mutate':
         run_mutate(acc, enf, 3 if job['tier'] == 'quick' else 4)
+    elif space == 'debuglog':
+        # the same decisions with every oslo_policy logger at DEBUG and a
+        # handler that formats each record
+        import logging
+
+        class H(logging.Handler):
+            def emit(self, record):
+                record.getMessage()
+        lg = logging.getLogger('oslo_policy')
+        lg.handlers[:] = [H()]
+        lg.setLevel(logging.DEBUG)
+        try:
+            lists = role_lists(words(1), 2)
+            for x in words(1) + ['ab', 'Éa']:
+                _set(enf, x)
+                for rl in lists:
+                    exp = rleaf.role_allows(x, {}, _creds(rl))
+                    acc.case(space, bool(x) and bool(rl))
+                    _check(acc, enf, space, CONTEXTS, {}, rl, exp,
+                           {'x': x, 'roles': rl, 'debug_logging': True})
+        finally:
+            core.quiet_logging()
+        acc.sample(space, {'x': 'ab', 'debug_logging': True})
     elif space == 'lists3':
         names1 = words(1)
         lists = [list(p) for p in itertools.product(names1, repeat=3)]
